@@ -65,7 +65,10 @@ impl<F: PackRecipient> ContainerPackCreator<F> {
         let check_info_pos = self.file.tell();
 
         // Write pack header
-        let pack_size = Size::from(check_info_pos + PackHeader::BLOCK_SIZE);
+        // The pack size includes the check info block (written below) and the tail.
+        let pack_size = Size::from(
+            check_info_pos + crate::common::CheckKind::None.block_size() + PackHeader::BLOCK_SIZE,
+        );
         let pack_header = PackHeader::new(
             crate::common::PackKind::Container,
             PackHeaderInfo::new(VendorId::from([0, 0, 0, 0]), pack_size, check_info_pos),
